@@ -74,7 +74,19 @@ func setTxid(b []byte, tx uint64) {
 
 func damage(r *rand.Rand, b []byte) ([]byte, string) {
 	c := append([]byte(nil), b...)
-	switch r.Intn(6) {
+	switch r.Intn(7) {
+	case 6:
+		// the page-size field holds another plausible page size (a power of two >= 1024): multi-bit damage that a
+		// single flip can never produce
+		cur := binary.LittleEndian.Uint32(c[8:12])
+		for {
+			v := uint32(1024) << uint(r.Intn(11))
+			if v != cur {
+				binary.LittleEndian.PutUint32(c[8:12], v)
+				break
+			}
+		}
+		return c, "pagesize-field"
 	case 0:
 		return c, "intact"
 	case 1:
@@ -132,8 +144,8 @@ func modelReadMetaWin(m *model.Client, img []byte) string {
 func runC16(args []string) int {
 	f := parseFlags("c16", args)
 	rep := newReport("C16", f)
-	rep.Rule = "A: crafted pairs of header slots (valid / bit flip / zero / garbage / tear / multi-byte / equal txid / wrap-around txids) in 2-3 page images, implementation readValidMeta vs. Coq model; " +
-		"B: files produced by random histories, each header page damaged by every single bit flip, every byte-prefix tear, zeroes, garbage, slot copies, both-damaged, reopened through the open path and compared with the state of the intact header and with the model. " +
+	rep.Rule = "A: crafted pairs of header slots (valid / bit flip / zero / garbage / tear / multi-byte / another plausible page size in the page-size field / equal txid / wrap-around txids) in 2-3 page images, implementation readValidMeta vs. Coq model; " +
+		"B: files produced by random histories, each header page damaged by every single bit flip, every byte-prefix tear, zeroes, garbage, other plausible page sizes in the page-size field, slot copies, both-damaged, reopened through the open path and compared with the state of the intact header and with the model. " +
 		"C: free-list / mapping page chains written by the implementation with one page damaged (entry counts beyond the page, garbage, truncated entries): readFreeList / readWAL vs. the Coq model, never a panic; the same damage on the meta pages of history images through Open. " +
 		"A case is non-trivial when at least one slot is damaged or both are valid with different txids; distinct = distinct (damage kind, slot, position, outcome)."
 	m, err := model.Start()
@@ -412,6 +424,15 @@ func c16History(rep *Report, m *model.Client, cfg engine.Config, ops []engine.Op
 					b[base+gr.Intn(84)] = byte(gr.Intn(256))
 				}
 			}}
+			d.dam[s] = true
+			cases = append(cases, d)
+		}
+		for _, v := range []uint32{1024, 2048, 4096, 8192, 1 << 16, 1 << 20} {
+			v := v
+			if int(v) == ps {
+				continue
+			}
+			d := dcase{name: fmt.Sprintf("pagesize/slot%d/%d", s, v), mut: func(b []byte) { binary.LittleEndian.PutUint32(b[base+8:], v) }}
 			d.dam[s] = true
 			cases = append(cases, d)
 		}
